@@ -1,5 +1,6 @@
 import MorfuseModel.Sched.Machine
 import MorfuseModel.Sched.Snapshot
+import MorfuseModel.Sched.HostOps
 import Driver.Util
 /-! driver for the scheduler machine (properties C05, C06, C07, C13; commands of harness/engine.cpp) -/
 namespace Driver.Sched
@@ -81,7 +82,7 @@ def showRet : Ret → String
   | .val (.int v) => s!"i{v}" | .val (.str x) => s!"s{x}" | .val .nil => "nil"
 
 def takeOut (s : State) : State × String :=
-  ({ s with out := [] }, "[" ++ "|".intercalate s.out.reverse ++ "]")
+  (HostOp.apply s .takeOut, "[" ++ "|".intercalate s.out.reverse ++ "]")
 
 def trailer (s : State) : String :=
   let cls := s.insts.length
@@ -99,10 +100,10 @@ def labelIdx (l : String) : Option Nat :=
 
 def step (st : St) (t : List String) : St × String :=
   match t with
-  | ["reset"] => reply {} "ok"
+  | ["reset"] => reply { s := HostOp.apply st.s .reset } "ok"
   | "script" :: _name :: _hex :: "##" :: abs =>
     match parseProg abs with
-    | some p => reply { st with s := hostScript st.s (p.map (·.2)) (p.map (·.1)) } "ok"
+    | some p => reply { st with s := HostOp.apply st.s (.script (p.map (·.2)) (p.map (·.1))) } "ok"
     | none => (st, "bad-op")
   | "call" :: _name :: label :: args =>
     -- no script compiled under that name: the engine's file lookup fails with a script error
@@ -112,7 +113,8 @@ def step (st : St) (t : List String) : St × String :=
     | _, none => (st, "bad-op")
     | some l, some vs =>
       let c := st.s.nextCall
-      let (s', status) := hostCall st.s l vs
+      let status := hostCallStatus st.s l
+      let s' := HostOp.apply st.s (.call l vs)
       if status == "ok" then
         reply { s := s', lastCall := some c } status s!" ret={showRet (s'.getRet c)}"
       else reply { s := s', lastCall := none } status      -- the host's Event of the failed call holds no result
@@ -122,10 +124,8 @@ def step (st : St) (t : List String) : St × String :=
     match labelIdx label with
     | none => (st, "bad-op")
     | some l =>
-      let c := st.s.nextCall
-      let (s', status) := hostCall st.s l []
-      let s' := { s' with threads := s'.threads.map (fun e => (e.1, if e.2.call == some c then { e.2 with call := none } else e.2)) }
-      reply { st with s := s' } status
+      let status := hostCallStatus st.s l
+      reply { st with s := HostOp.apply st.s (.callv l) } status
   | ["save"] => reply { st with saved := some (save st.s) } "ok"
   | ["load"] =>
     match st.saved with
@@ -137,13 +137,13 @@ def step (st : St) (t : List String) : St × String :=
     reply st "ok" s!" ret={if rs.isEmpty then "none" else ",".intercalate rs}"
   | ["advance", n] =>
     match n.toNat? with
-    | some k => reply { st with s := { st.s with clock := st.s.clock + k } } "ok"
+    | some k => reply { st with s := HostOp.apply st.s (.advance k) } "ok"
     | none => (st, "bad-op")
-  | ["reset-director"] => reply { st with s := hostReset st.s } "ok"
-  | ["execute"] => reply { st with s := hostExecute st.s } "ok"
+  | ["reset-director"] => reply { st with s := HostOp.apply st.s .resetDirector } "ok"
+  | ["execute"] => reply { st with s := HostOp.apply st.s .execute } "ok"
   | ["step", n] =>
     match n.toNat? with
-    | some k => reply { st with s := hostExecute { st.s with clock := st.s.clock + k } } "ok"
+    | some k => reply { st with s := HostOp.apply st.s (.step k) } "ok"
     | none => (st, "bad-op")
   | _ => (st, "bad-op")
 
